@@ -240,6 +240,12 @@ def empty(shape, dtype=None, *a, **k):
     return _np.empty(shape, dtype, *a, **k)
 
 
+def format_float_positional(x, *a, **k):
+    from . import fmt
+
+    return fmt.format_float_positional(x, *a, **k)
+
+
 def issubdtype(a, b):
     if a is SymInt:
         return b in (_np.integer, int, _np.signedinteger, _np.number)
